@@ -561,7 +561,108 @@ def check_noeffect(ctx, prog, errs):
     ctx.min_instances("R11.noeffect", 30)
 
 
+# documented precedence of the error codes (test/testcases/error_precedence.m4 states these lists)
+PREC = {
+    "var": ["NC_EBADID", "NC_EPERM", "NC_EINDEFINE", "NC_ENOTVAR", "NC_ECHAR", "NC_EINVALCOORDS", "NC_EEDGE", "NC_ESTRIDE",
+            "NC_EINVAL", "NC_ERANGE"],
+    "putatt": ["NC_EBADID", "NC_EPERM", "NC_ENOTVAR", "NC_EBADNAME", "NC_EBADTYPE", "NC_ECHAR", "NC_EINVAL", "NC_ENOTINDEFINE",
+               "NC_ERANGE"],
+    "getatt": ["NC_EBADID", "NC_ENOTVAR", "NC_EBADNAME", "NC_ENOTATT", "NC_ECHAR", "NC_EINVAL", "NC_ERANGE"],
+}
+PREC_HELPERS = {"sanity_check": "var", "check_start_count_stride": "var", "sanity_check_put": "putatt", "sanity_check_get": "getatt"}
+
+
+def error_sites(fn):
+    """macro name of a returned / assigned error constant -> blocks whose branch leads to it"""
+    import cfg as _cfg
+    out = {}
+    for b, i, e in fn.elements():
+        tgt = None
+        if e.get("k") == "ret" and e.get("e") is not None and const_value(e["e"]) is not None and const_value(e["e"]) < 0:
+            tgt = e["e"]
+        elif e.get("k") == "asg" and const_value(e["b"]) is not None and const_value(e["b"]) < 0 and \
+                strip(e["a"]).get("k") == "ref" and strip(e["a"]).get("n") in ("err", "status"):
+            tgt = e["b"]
+        if tgt is None:
+            continue
+        ms = [m for x in walk(tgt, into_pre=True) for m in (x.get("m") or []) if m.startswith("NC_E")]
+        if not ms:
+            continue
+        guards = [p for p in b.preds if fn.blocks[p].cond is not None]
+        out.setdefault(ms[-1], []).extend(guards or [b.id])
+    return out
+
+
+def check_precedence(ctx, prog):
+    import cfg as _cfg
+    n = 0
+    for name, fam in sorted(PREC_HELPERS.items()):
+        fn = ctx.need_fn(prog, name)
+        sites = error_sites(fn)
+        order = [e for e in PREC[fam] if e in sites]
+        ctx.require(len(order) >= 2, "%s: fewer than two of the documented error codes are produced here (%s)" % (name, sorted(sites)))
+        for a, b in zip(order, order[1:]):
+            n += 1
+            inst = "%s:%s<%s" % (name, a, b)
+            # every test producing `a` comes first: no test of `b` can be followed by a test of `a`
+            bad = [(ga, gb) for ga in sites[a] for gb in sites[b] if gb != ga and _cfg.can_reach(fn, gb, ga) and not _cfg.can_reach(fn, ga, gb)]
+            first = any(_cfg.can_reach(fn, ga, gb) or ga == gb for ga in sites[a] for gb in sites[b])
+            if bad or not first:
+                ctx.fail("R11.prec", name, "%s<%s" % (a, b), "%s() can test the condition for %s before the one for %s; the documented "
+                         "precedence puts %s first, so a call with both problems returns the wrong code" % (name, b, a, a),
+                         fn=fn, line=fn.blocks[(bad[0][1] if bad else sites[b][0])].tl or fn.line, inst=inst)
+            else:
+                ctx.ok("R11.prec", inst, "the test for %s precedes the test for %s on every path" % (a, b))
+    # the wrappers call id check -> sanity check -> start/count check -> driver, in this order
+    wr = 0
+    for fn in prog.all_functions():
+        if not fn.name.startswith("ncmpi_") or not fn.relfile().endswith(("var_getput.c", "var_getput.m4)")):
+            continue
+        calls = {}
+        for b, i, e in fn.elements():
+            for c in walk(e):
+                if c.get("k") == "call":
+                    nm = c.get("fn") or ("driver" if "var" in (slot_of_call(c) or "") else None)
+                    if nm in ("PNC_check_id", "sanity_check", "check_start_count_stride", "driver"):
+                        calls.setdefault(nm, []).append((b.id, i))
+        if "driver" not in calls or "PNC_check_id" not in calls or len(calls) < 3:
+            continue
+        wr += 1
+
+        def before(px, py):
+            (bx, ix), (by, iy) = px, py
+            if bx == by:
+                return ix < iy
+            if _cfg.pos_dominates(fn, px, py):
+                return True             # also inside a loop over variables / sub-requests
+            return _cfg.can_reach(fn, bx, by) and not _cfg.can_reach(fn, by, bx)
+
+        def never_before(py, px):
+            """the call at py never runs before the call at px"""
+            (bx, ix), (by, iy) = px, py
+            if bx == by:
+                return ix < iy
+            return not _cfg.can_reach(fn, by, bx)
+        idc = calls["PNC_check_id"][0]
+        ok = all(_cfg.pos_dominates(fn, idc, p) for k, ps in calls.items() if k != "PNC_check_id" for p in ps)
+        for d in calls["driver"]:
+            for k in ("sanity_check", "check_start_count_stride"):
+                ok = ok and all(never_before(d, c) for c in calls.get(k, []))
+        for s_ in calls.get("sanity_check", []):
+            for c in calls.get("check_start_count_stride", []):
+                ok = ok and before(s_, c)
+        if ok:
+            ctx.ok("R11.prec", "%s:order" % fn.name, "id check first, mode/argument checks before the start/count check, no data call "
+                   "of the driver before a check", nontrivial=False)
+        else:
+            ctx.fail("R11.prec", fn.name, "order", "the wrapper does not keep the order id check -> sanity_check -> "
+                     "check_start_count_stride -> driver data call on every path", fn=fn, line=fn.line, inst="%s:order" % fn.name)
+    ctx.require(wr >= 500, "R11.prec: only %d put/get wrappers found" % wr)
+    ctx.require(n >= 8, "R11.prec: only %d precedence pairs found" % n)
+
+
 def run(ctx):
+    ctx.rule("R11.prec", "the argument/mode checks produce their error codes in the documented precedence order")
     ctx.rule("R11.noeffect", "no path that returns NC_ENOTINDEFINE/NC_EINDEFINE/NC_EPERM/NC_EINDEP/NC_ENOTINDEP has "
              "modified header state (lookup tables, object arrays, names) before the return")
     ctx.rule("R11.writers", "mode bits of PNC.flag / NC.flags are written only by the listed mode-changing functions")
@@ -585,3 +686,4 @@ def run(ctx):
     check_guards(ctx, prog, bits, errs)
     check_driver_guards(ctx, prog, bits, errs)
     check_noeffect(ctx, prog, errs)
+    check_precedence(ctx, prog)
